@@ -1,6 +1,6 @@
 (* C04 — Leftmost-first search picks the leftmost start, then the earliest-registered pattern. *)
 From DV Require Import Model.Base Model.Nfa Model.BwBuild Model.BwSearch Model.Utf8 Model.CwBuild Model.Api Model.Spec
-     Model.Cert Proofs.Leftmost Proofs.BwLeftmost Theory.LmfSpec Proofs.Utf8Props Proofs.CwCert Proofs.CwLeftmost.
+     Model.Cert Proofs.Leftmost Proofs.BwLeftmost Theory.LmfSpec Proofs.Utf8Props Proofs.CwCert Proofs.CwLeftmost Proofs.TrieInv Proofs.BuildTrie.
 Local Open Scope N_scope.
 
 (* (1) On specifications, for every duplicate-free sequence of non-empty patterns (order is
@@ -74,3 +74,20 @@ Example c04_hypotheses_met :
   | _ => False
   end.
 Proof. vm_compute. repeat split; reflexivity. Qed.
+
+(* (6) Universal, about the BUILDER (trie invariant): for every valid pattern sequence (total length
+   below 2^30 bytes) the pattern loop under leftmost-first ends in a trie whose output-bearing
+   states are exactly the EFFECTIVE patterns, each reached from the root by its own bytes, with its
+   own value and length: the shadowed patterns are dropped at registration, never reported. *)
+Theorem lmf_builder_registers_exactly_the_effective_patterns :
+  forall (V : Type) (pvs : list (list N * V)), 4 * total_len V pvs <= U32_MAX - 1 ->
+    spec_build_error (map fst pvs) = None ->
+  exists n, add_all V (fun _ => 1) (nfa_new V LeftmostFirst) pvs = Ok n
+    /\ (forall p t st, twalk V n ROOT p = Some t -> nget t (n_states n) = Some st ->
+          match n_output st with
+          | Some (v, l) => In (p, v) (effective V pvs) /\ l = N.of_nat (length p)
+          | None => forall v, ~ In (p, v) (effective V pvs)
+          end)
+    /\ (forall p v, In (p, v) (effective V pvs) -> exists t, twalk V n ROOT p = Some t).
+Proof. exact lmf_loop_lemma. Qed.
+Print Assumptions lmf_builder_registers_exactly_the_effective_patterns.
